@@ -1,7 +1,624 @@
-(* C09 — proofs (under construction) *)
-From verif Require Import lib.Base model.C08_Value model.C09.
+(* C09 — proofs about Cmp / CmpTotal of the value model: 0 for Equal values,
+   antisymmetry, totality of CmpTotal, agreement of CmpTotal with Cmp,
+   transitivity within exact numbers / within floats / non-numeric values,
+   agreement with the documented orders for exact numbers, refutation
+   witnesses for the mixed exact/inexact cases and for sliced lists. *)
+From verif Require Import lib.Base model.C08_Value model.C09 proofs.C08_Value_proofs.
+From Coq Require Import QArith Arith.
+Close Scope Q_scope.
 Open Scope N_scope.
 
-Lemma equal_hash_refuted_w :
-  exists a b, equal a b = true /\ hash a <> hash b.
-Proof. exists (VFloat 0), (VFloat (2 ^ 63)). split; vm_compute; congruence. Qed.
+(* ---- named forms ---- *)
+Section Lex.
+  Variable f : value -> value -> ordering.
+  Fixpoint lexc (x y : list value) {struct x} : ordering :=
+    match x, y with
+    | p :: x', q :: y' => match f p q with OEq => lexc x' y' | o => o end
+    | [], [] => OEq
+    | [], _ :: _ => OLt
+    | _ :: _, [] => OGt
+    end.
+End Lex.
+
+Definition inner (rk : N -> Z) (tot : bool) (a b : value) : ordering :=
+  match a, b with
+  | VNil, VNil => OEq
+  | VBool x, VBool y => if Bool.eqb x y then OEq else if x then OGt else OLt
+  | VInt _, _ | VBig _, _ | VRat _, _ | VFloat _, _ => cmp_num a b
+  | VStr x, VStr y => bytes_cmp x y
+  | VList _ x, VList _ y => lexc (cmpg rk tot) x y
+  | VMap _, _ | VOpaque _ _, _ => if equal a b then OEq else OUn
+  | _, _ => OUn
+  end.
+
+Definition rkcmp (rk : N -> Z) (a b : value) : comparison := Z.compare (rk (tag a)) (rk (tag b)).
+
+Lemma cmpg_unfold rk tot a b :
+  cmpg rk tot a b =
+  if tot then match rkcmp rk a b with
+              | Lt => OLt | Gt => OGt | Eq => lift_total (inner rk tot a b) end
+  else inner rk tot a b.
+Proof. destruct a; destruct b; reflexivity. Qed.
+
+Lemma cmp_is_inner rk a b : cmpg rk false a b = inner rk false a b.
+Proof. now rewrite cmpg_unfold. Qed.
+
+(* cmp ignores the rank function *)
+Lemma cmpg_false_rk_n n : forall rk rk' a b, (vsize a < n)%nat -> cmpg rk false a b = cmpg rk' false a b.
+Proof.
+  induction n as [|n IH]; intros rk rk' a b Sz; [lia|].
+  rewrite !cmp_is_inner. destruct a; try reflexivity. destruct b; try reflexivity.
+  cbn [inner].
+  assert (H : forall p, In p l -> (vsize p < n)%nat).
+  { intros p Hp. pose proof (vsize_list_in sub l p Hp). lia. }
+  clear Sz. revert l0. induction l as [|p l IHl]; intros [|q l0]; cbn; try reflexivity.
+  rewrite (IH rk rk' p q) by (apply H; now left).
+  destruct (cmpg rk' false p q); try reflexivity. apply IHl. intros x Hx. apply H. now right.
+Qed.
+
+Lemma cmpg_false_rk rk a b : cmpg rk false a b = cmp a b.
+Proof. unfold cmp. apply (cmpg_false_rk_n (S (vsize a))). lia. Qed.
+
+(* ---- orderings ---- *)
+Definition comp (o1 o2 : ordering) : option ordering :=
+  match o1, o2 with
+  | OEq, OEq => Some OEq
+  | OLt, OEq | OEq, OLt | OLt, OLt => Some OLt
+  | OGt, OEq | OEq, OGt | OGt, OGt => Some OGt
+  | _, _ => None
+  end.
+
+Lemma comp_unc_r x : comp x OUn = None.
+Proof. now destruct x. Qed.
+
+Definition TransAt (f : value -> value -> ordering) (a b c : value) : Prop :=
+  forall o, comp (f a b) (f b c) = Some o -> f a c = o.
+
+Lemma ofc_flip c : of_comparison (CompOpp c) = flip (of_comparison c).
+Proof. now destruct c. Qed.
+Ltac opp_done := match goal with |- context [CompOpp ?c] => destruct c end; reflexivity.
+
+Lemma Zcmp_trans x y z o :
+  comp (of_comparison (x ?= y)%Z) (of_comparison (y ?= z)%Z) = Some o ->
+  of_comparison (x ?= z)%Z = o.
+Proof.
+  destruct (Z.compare_spec x y), (Z.compare_spec y z); cbn; intros K; try discriminate K;
+    injection K as <-; destruct (Z.compare_spec x z); try reflexivity; lia.
+Qed.
+
+Lemma Ncmp_trans x y z o :
+  comp (of_comparison (x ?= y)) (of_comparison (y ?= z)) = Some o ->
+  of_comparison (x ?= z) = o.
+Proof.
+  destruct (N.compare_spec x y), (N.compare_spec y z); cbn; intros K; try discriminate K;
+    injection K as <-; destruct (N.compare_spec x z); try reflexivity; lia.
+Qed.
+
+Lemma Qcmp_trans x y z o :
+  comp (of_comparison (Qcompare x y)) (of_comparison (Qcompare y z)) = Some o ->
+  of_comparison (Qcompare x z) = o.
+Proof.
+  unfold Qcompare.
+  (* cross-multiply everything with the three positive denominators *)
+  set (a := (Qnum x * QDen y * QDen z)%Z).
+  set (b := (Qnum y * QDen x * QDen z)%Z).
+  set (c := (Qnum z * QDen x * QDen y)%Z).
+  assert (P1 : (0 < QDen x)%Z) by reflexivity.
+  assert (P2 : (0 < QDen y)%Z) by reflexivity.
+  assert (P3 : (0 < QDen z)%Z) by reflexivity.
+  assert (E1 : (Qnum x * QDen y ?= Qnum y * QDen x)%Z = (a ?= b)%Z).
+  { unfold a, b. apply Zmult_compare_compat_r. lia. }
+  assert (E2 : (Qnum y * QDen z ?= Qnum z * QDen y)%Z = (b ?= c)%Z).
+  { unfold b, c. rewrite (Zmult_compare_compat_r (Qnum y * QDen z) _ (QDen x)) by lia.
+    f_equal; ring. }
+  assert (E3 : (Qnum x * QDen z ?= Qnum z * QDen x)%Z = (a ?= c)%Z).
+  { unfold a, c. rewrite (Zmult_compare_compat_r (Qnum x * QDen z) _ (QDen y)) by lia.
+    f_equal; ring. }
+  rewrite E1, E2, E3. apply Zcmp_trans.
+Qed.
+
+(* ---- floats ---- *)
+Lemma cmp_float_trans x y z o :
+  comp (cmp_float x y) (cmp_float y z) = Some o -> cmp_float x z = o.
+Proof.
+  unfold cmp_float.
+  destruct (f_is_nan x), (f_is_nan y), (f_is_nan z); cbn; intros H;
+    try (inversion H; subst; reflexivity); try discriminate.
+  - destruct (f_key y ?= f_key z)%Z; cbn in H; inversion H; reflexivity.
+  - destruct (f_key x ?= f_key y)%Z; cbn in H; inversion H; reflexivity.
+  - now apply (Zcmp_trans (f_key x) (f_key y) (f_key z)).
+Qed.
+
+Lemma cmp_float_antisym x y : cmp_float x y = flip (cmp_float y x).
+Proof.
+  unfold cmp_float. destruct (f_is_nan x), (f_is_nan y); try reflexivity.
+  rewrite (Z.compare_antisym (f_key x) (f_key y)). opp_done.
+Qed.
+
+(* ---- numbers ---- *)
+Definition is_num (v : value) : bool := match num_type v with Some _ => true | None => false end.
+Definition is_exact (v : value) : bool :=
+  match v with VInt _ | VBig _ | VRat _ => true | _ => false end.
+Definition is_float (v : value) : bool := match v with VFloat _ => true | _ => false end.
+
+Lemma cmp_num_nonnum_r a b : is_num b = false -> cmp_num a b = OUn.
+Proof. unfold cmp_num. destruct b; try discriminate; intros _; now destruct (num_type a). Qed.
+
+Lemma cmp_num_nonnum_l a b : is_num a = false -> cmp_num a b = OUn.
+Proof. unfold cmp_num. destruct a; try discriminate; reflexivity. Qed.
+
+Lemma Qcompare_int x y : Qcompare (Qmake x 1) (Qmake y 1) = (x ?= y)%Z.
+Proof. unfold Qcompare. cbn. now rewrite !Z.mul_1_r. Qed.
+
+Lemma cmp_num_exact a b :
+  is_exact a = true -> is_exact b = true ->
+  cmp_num a b = of_comparison (Qcompare (to_Q a) (to_Q b)).
+Proof.
+  destruct a; try discriminate; destruct b; try discriminate; intros _ _;
+    cbn; try reflexivity; now rewrite Qcompare_int.
+Qed.
+
+Lemma cmp_num_float x y : cmp_num (VFloat x) (VFloat y) = cmp_float x y.
+Proof. reflexivity. Qed.
+
+Lemma cmp_num_antisym a b : cmp_num a b = flip (cmp_num b a).
+Proof.
+  unfold cmp_num. destruct (num_type a) as [ta|] eqn:Ea, (num_type b) as [tb|] eqn:Eb; try reflexivity.
+  rewrite (N.max_comm tb ta).
+  destruct (N.max ta tb <=? 1).
+  - rewrite (Z.compare_antisym (to_Z a) (to_Z b)). opp_done.
+  - destruct (N.max ta tb =? 2).
+    + rewrite <- (Qcompare_antisym (to_Q a) (to_Q b)). opp_done.
+    + apply cmp_float_antisym.
+Qed.
+
+Lemma cmp_num_trans_exact a b c o :
+  is_exact a = true -> is_exact b = true -> is_exact c = true ->
+  comp (cmp_num a b) (cmp_num b c) = Some o -> cmp_num a c = o.
+Proof.
+  intros A B C. rewrite !cmp_num_exact by assumption. apply Qcmp_trans.
+Qed.
+
+Lemma cmp_num_trans_float a b c o :
+  is_float a = true -> is_float b = true -> is_float c = true ->
+  comp (cmp_num a b) (cmp_num b c) = Some o -> cmp_num a c = o.
+Proof.
+  destruct a; try discriminate; destruct b; try discriminate; destruct c; try discriminate.
+  intros _ _ _. rewrite !cmp_num_float. apply cmp_float_trans.
+Qed.
+
+Lemma cmp_num_never_unc a b : is_num a = true -> is_num b = true -> cmp_num a b <> OUn.
+Proof.
+  unfold cmp_num, is_num. destruct (num_type a), (num_type b); try discriminate. intros _ _.
+  destruct (N.max n n0 <=? 1); [now destruct (Z.compare _ _)|].
+  destruct (N.max n n0 =? 2); [now destruct (Qcompare _ _)|].
+  unfold cmp_float. destruct (f_is_nan _), (f_is_nan _); try discriminate.
+  now destruct (Z.compare _ _).
+Qed.
+
+(* ---- strings ---- *)
+Ltac fin H := cbn in H; try discriminate H; try (injection H as <-); try reflexivity.
+
+Lemma bytes_cmp_trans x : forall y z o,
+  comp (bytes_cmp x y) (bytes_cmp y z) = Some o -> bytes_cmp x z = o.
+Proof.
+  induction x as [|a x IH]; intros [|b y] [|c z] o; cbn; intros H; try (cbn in H; first [discriminate H|injection H as <-; reflexivity]).
+  - destruct (b ?= c); [destruct (bytes_cmp y z)| |]; fin H.
+  - destruct (a ?= b); [destruct (bytes_cmp x y)| |]; fin H.
+  - destruct (N.compare_spec a b) as [E1|L1|L1], (N.compare_spec b c) as [E2|L2|L2].
+    + subst. rewrite N.compare_refl. now apply (IH y z).
+    + subst. destruct (bytes_cmp x y); fin H;
+        destruct (N.compare_spec b c); try lia; reflexivity.
+    + subst. destruct (bytes_cmp x y); fin H;
+        destruct (N.compare_spec b c); try lia; reflexivity.
+    + subst. destruct (bytes_cmp y z); fin H;
+        destruct (N.compare_spec a c); try lia; reflexivity.
+    + fin H. destruct (N.compare_spec a c); try lia; reflexivity.
+    + fin H.
+    + subst. destruct (bytes_cmp y z); fin H;
+        destruct (N.compare_spec a c); try lia; reflexivity.
+    + fin H.
+    + fin H. destruct (N.compare_spec a c); try lia; reflexivity.
+Qed.
+
+Lemma bytes_cmp_antisym x : forall y, bytes_cmp x y = flip (bytes_cmp y x).
+Proof.
+  induction x as [|a x IH]; intros [|b y]; cbn; try reflexivity.
+  rewrite (N.compare_antisym a b). destruct (a ?= b); cbn; auto.
+Qed.
+
+Lemma bytes_cmp_refl x : bytes_cmp x x = OEq.
+Proof. induction x as [|a x IH]; cbn; [reflexivity|]. now rewrite N.compare_refl. Qed.
+
+(* ------------------------------------------------------------------ *)
+(* compare outputs 0 for Equal values *)
+Lemma cmp_float_of_eq x y : f_eq x y = true -> cmp_float x y = OEq.
+Proof.
+  unfold f_eq, cmp_float. intros H.
+  apply andb_true_iff in H as [H K]. apply andb_true_iff in H as [Nx Ny].
+  apply negb_true_iff in Nx, Ny. rewrite Nx, Ny. apply Z.eqb_eq in K. rewrite K.
+  now rewrite Z.compare_refl.
+Qed.
+
+Lemma cmp_eq_of_equal_n n : forall a b, (vsize a < n)%nat -> a ~= b -> cmp a b = OEq.
+Proof.
+  induction n as [|n IH]; intros a b Sz E; [lia|].
+  unfold cmp. rewrite cmp_is_inner.
+  destruct a, b; try (cbn in E; discriminate E).
+  - reflexivity.
+  - cbn in *. now rewrite E.
+  - cbn in E. apply Z.eqb_eq in E. subst. cbn. now rewrite Z.compare_refl.
+  - cbn in E. apply Z.eqb_eq in E. subst. cbn. now rewrite Z.compare_refl.
+  - cbn [equal] in E. apply Qeq_bool_iff in E. cbn. apply Qeq_alt in E. now rewrite E.
+  - cbn [equal] in E. change (cmp_float bits bits0 = OEq). now apply cmp_float_of_eq.
+  - cbn in E. apply bytes_eqb_spec in E. subst. cbn. apply bytes_cmp_refl.
+  - rewrite equal_list in E. cbn [inner].
+    assert (H : forall p, In p l -> (vsize p < n)%nat).
+    { intros p Hp. pose proof (vsize_list_in sub l p Hp). lia. }
+    clear Sz. revert l0 E. induction l as [|p l IHl]; intros [|q l0] E; cbn in *; try discriminate; auto.
+    apply andb_true_iff in E as [E1 E2].
+    rewrite cmpg_false_rk, (IH p q); auto.
+  - cbn [inner]. now rewrite E.
+  - cbn [inner]. now rewrite E.
+Qed.
+
+Theorem cmp_eq_of_equal a b : a ~= b -> cmp a b = OEq.
+Proof. apply (cmp_eq_of_equal_n (S (vsize a))). lia. Qed.
+
+(* ------------------------------------------------------------------ *)
+(* antisymmetry of Cmp and CmpTotal *)
+Lemma flip_lift o : lift_total (flip o) = flip (lift_total o).
+Proof. now destruct o. Qed.
+
+Lemma cmpg_antisym_n n : forall rk tot a b,
+  (vsize a < n)%nat -> wf a -> wf b -> cmpg rk tot a b = flip (cmpg rk tot b a).
+Proof.
+  induction n as [|n IH]; intros rk tot a b Sz Wa Wb; [lia|].
+  assert (I : inner rk tot a b = flip (inner rk tot b a)).
+  { destruct a.
+    - now destruct b.
+    - destruct b; try reflexivity. cbn. now destruct b0, b.
+    - destruct b; try reflexivity; cbn [inner]; apply cmp_num_antisym.
+    - destruct b; try reflexivity; cbn [inner]; apply cmp_num_antisym.
+    - destruct b; try reflexivity; cbn [inner]; apply cmp_num_antisym.
+    - destruct b; try reflexivity; cbn [inner]; apply cmp_num_antisym.
+    - destruct b; try reflexivity. cbn. apply bytes_cmp_antisym.
+    - destruct b; try reflexivity. cbn [inner].
+      assert (H : forall p, In p l -> (vsize p < n)%nat /\ wf p).
+      { intros p Hp. pose proof (vsize_list_in sub l p Hp). split; [lia|]. apply (wf_list_in sub l); auto. }
+      assert (H0 : forall q, In q l0 -> wf q) by (intros q Hq; apply (wf_list_in sub0 l0); auto).
+      clear Sz Wa Wb. revert l0 H0.
+      induction l as [|p l IHl]; intros [|q l0] H0; cbn; try reflexivity.
+      destruct (H p (or_introl eq_refl)) as [S1 W1].
+      rewrite (IH rk tot p q S1 W1) by (apply H0; now left).
+      destruct (cmpg rk tot q p); cbn; try reflexivity.
+      apply IHl; [intros x Hx; apply H; now right|intros x Hx; apply H0; now right].
+    - destruct b; try reflexivity. cbn [inner].
+      rewrite (equal_sym_bool (VMap m) (VMap m0)) by assumption. now destruct (equal _ _).
+    - destruct b; try reflexivity. cbn [inner].
+      rewrite (equal_sym_bool (VOpaque ty id) (VOpaque ty0 id0)) by assumption.
+      now destruct (equal _ _). }
+  rewrite (cmpg_unfold rk tot a b), (cmpg_unfold rk tot b a). destruct tot; [|exact I].
+  unfold rkcmp. rewrite (Z.compare_antisym (rk (tag a))).
+  destruct (rk (tag a) ?= rk (tag b))%Z; cbn; try reflexivity.
+  rewrite I. apply flip_lift.
+Qed.
+
+Theorem cmpg_antisym rk tot a b : wf a -> wf b -> cmpg rk tot a b = flip (cmpg rk tot b a).
+Proof. apply (cmpg_antisym_n (S (vsize a))). lia. Qed.
+
+(* ------------------------------------------------------------------ *)
+(* CmpTotal never answers "uncomparable" *)
+Theorem cmp_total_never_unc rk a b : cmp_total rk a b <> OUn.
+Proof.
+  unfold cmp_total. rewrite cmpg_unfold.
+  destruct (rkcmp rk a b); try discriminate. now destruct (inner rk true a b).
+Qed.
+
+(* ------------------------------------------------------------------ *)
+(* CmpTotal agrees with Cmp wherever Cmp is defined — for values without
+   sliced lists *)
+Lemma has_sublist_list s l : has_sublist (VList s l) = s || existsb has_sublist l.
+Proof. reflexivity. Qed.
+
+Definition same_kind (a b : value) : bool :=
+  match a, b with
+  | VNil, VNil | VBool _, VBool _ | VStr _, VStr _ | VMap _, VMap _ => true
+  | VList s _, VList s' _ => Bool.eqb s s'
+  | VOpaque t _, VOpaque t' _ => N.eqb t t'
+  | _, _ => is_num a && is_num b
+  end.
+
+Lemma same_kind_tag a b : same_kind a b = true -> tag a = tag b.
+Proof.
+  destruct a, b; try discriminate; try reflexivity; cbn.
+  - intros H. apply Bool.eqb_prop in H. now subst.
+  - intros H. apply N.eqb_eq in H. now subst.
+Qed.
+
+Lemma cmp_total_agrees_n n : forall rk a b,
+  (vsize a < n)%nat -> has_sublist a = false -> has_sublist b = false ->
+  cmp a b <> OUn -> cmp_total rk a b = cmp a b.
+Proof.
+  induction n as [|n IH]; intros rk a b Sz Sa Sb H; [lia|].
+  unfold cmp, cmp_total in *. rewrite cmpg_unfold. rewrite cmp_is_inner in *.
+  assert (K : same_kind a b = true).
+  { destruct a, b; try reflexivity; try (exfalso; apply H; reflexivity);
+      try (cbn in H; cbn; destruct (N.eqb ty ty0) eqn:E; [reflexivity|]; cbn in H; now rewrite ?andb_false_l in H).
+    rewrite has_sublist_list in Sa, Sb. apply orb_false_iff in Sa as [-> _].
+    apply orb_false_iff in Sb as [-> _]. reflexivity. }
+  unfold rkcmp. rewrite (same_kind_tag a b K), Z.compare_refl.
+  assert (G : inner rk true a b = inner (fun _ => 0%Z) false a b).
+  { destruct a, b; try reflexivity. cbn [inner].
+    rewrite has_sublist_list in Sa, Sb.
+    apply orb_false_iff in Sa as [_ Sa]. apply orb_false_iff in Sb as [_ Sb].
+    cbn [inner] in H.
+    assert (Hs : forall p, In p l -> (vsize p < n)%nat).
+    { intros p Hp. pose proof (vsize_list_in sub l p Hp). lia. }
+    clear Sz K. revert l0 Sb H. induction l as [|p l IHl]; intros [|q l0] Sb H; cbn in *; try reflexivity.
+    apply orb_false_iff in Sa as [Sp Sa]. apply orb_false_iff in Sb as [Sq Sb].
+    assert (Hpq : cmpg (fun _ => 0%Z) false p q <> OUn).
+    { intros C. rewrite C in H. now apply H. }
+    pose proof (IH rk p q (Hs p (or_introl eq_refl)) Sp Sq Hpq) as E.
+    unfold cmp_total, cmp in E. rewrite E.
+    destruct (cmpg (fun _ => 0%Z) false p q); try reflexivity.
+    apply IHl; auto. }
+  rewrite G. destruct (inner (fun _ => 0%Z) false a b); try reflexivity. now exfalso.
+Qed.
+
+Theorem cmp_total_agrees_partial rk a b :
+  has_sublist a = false -> has_sublist b = false ->
+  cmp a b <> OUn -> cmp_total rk a b = cmp a b.
+Proof. apply (cmp_total_agrees_n (S (vsize a))). lia. Qed.
+
+(* ------------------------------------------------------------------ *)
+(* transitivity of Cmp within exact numbers / within floats / other values *)
+Fixpoint nums_all (p : value -> bool) (v : value) : bool :=
+  match v with
+  | VInt _ | VBig _ | VRat _ | VFloat _ => p v
+  | VList _ l => forallb (nums_all p) l
+  | _ => true
+  end.
+
+Lemma nums_all_list p s l : nums_all p (VList s l) = forallb (nums_all p) l.
+Proof. reflexivity. Qed.
+
+Section Trans.
+  Variable p : value -> bool.
+  Hypothesis p_num : forall a b c o, is_num a = true -> is_num b = true -> is_num c = true ->
+    p a = true -> p b = true -> p c = true ->
+    comp (cmp_num a b) (cmp_num b c) = Some o -> cmp_num a c = o.
+
+  Definition okv (v : value) : Prop := wf v /\ nums_all p v = true.
+
+  Lemma okv_list_in s l x : okv (VList s l) -> In x l -> okv x.
+  Proof.
+    intros [W A] Hx. split; [eapply wf_list_in; eauto|].
+    rewrite nums_all_list, forallb_forall in A. auto.
+  Qed.
+
+  Lemma okv_num a : okv a -> is_num a = true -> p a = true.
+  Proof. intros [_ A]. destruct a; try discriminate; auto. Qed.
+
+  Lemma lexc_trans f x : forall y z,
+    (forall a b c, In a x -> In b y -> In c z -> TransAt f a b c) ->
+    forall o, comp (lexc f x y) (lexc f y z) = Some o -> lexc f x z = o.
+  Proof.
+    induction x as [|a x IH]; intros [|b y] [|c z] T o; cbn; intros H;
+      try (cbn in H; first [discriminate H|injection H as <-; reflexivity]).
+    - destruct (f b c); try (destruct (lexc f y z)); fin H.
+    - destruct (f a b); try (destruct (lexc f x y)); fin H.
+    - assert (Tabc : TransAt f a b c) by (apply T; now left).
+      unfold TransAt in Tabc.
+      destruct (f a b) eqn:Eab, (f b c) eqn:Ebc;
+        try (rewrite (Tabc _ eq_refl));
+        try (apply (IH y z); [intros a' b' c' Ha Hb Hc; apply T; now right|exact H]);
+        try (destruct (lexc f x y); fin H; fail);
+        try (destruct (lexc f y z); fin H; fail);
+        fin H.
+  Qed.
+
+  Lemma inner_num_l rk tot a b : is_num a = true -> inner rk tot a b = cmp_num a b.
+  Proof. destruct a; try discriminate; reflexivity. Qed.
+
+  Lemma inner_unc_kind rk tot a b : inner rk tot a b <> OUn -> same_kind a b = true \/
+    (exists s l s' l', a = VList s l /\ b = VList s' l').
+  Proof.
+    destruct a, b; cbn; intros H; try (now left); try (exfalso; now apply H);
+      try (right; eauto 6; fail).
+    - left. destruct (N.eqb ty ty0); [reflexivity|]. exfalso. now apply H.
+  Qed.
+
+  Lemma cmp_trans_n n : forall a b c,
+    (vsize a < n)%nat -> okv a -> okv b -> okv c -> TransAt cmp a b c.
+  Proof.
+    induction n as [|n IH]; intros a b c Sz Oa Ob Oc o; [lia|].
+    unfold cmp. rewrite !cmp_is_inner. set (rk := fun _ : N => 0%Z).
+    destruct (is_num a) eqn:Na.
+    { (* numbers *)
+      rewrite !(inner_num_l rk false a) by assumption.
+      destruct (is_num b) eqn:Nb; [|rewrite (cmp_num_nonnum_r a b Nb); discriminate].
+      rewrite (inner_num_l rk false b) by assumption.
+      destruct (is_num c) eqn:Nc; [|rewrite (cmp_num_nonnum_r b c Nc); destruct (cmp_num a b); discriminate].
+      apply p_num; auto using okv_num. }
+    destruct a; try discriminate Na.
+    - (* nil *) destruct b; try (cbn; discriminate).
+      destruct c; try (cbn [inner]; rewrite comp_unc_r; discriminate).
+      cbn. intros H. fin H.
+    - (* bool *) destruct b; try (cbn; discriminate).
+      destruct c; try (cbn [inner]; rewrite comp_unc_r; discriminate).
+      repeat match goal with x : bool |- _ => destruct x end; cbn; intros H; fin H.
+    - (* string *) destruct b; try (cbn; discriminate).
+      destruct c; try (cbn [inner]; rewrite comp_unc_r; discriminate).
+      cbn [inner]. apply bytes_cmp_trans.
+    - (* list *) destruct b; try (cbn; discriminate).
+      destruct c; try (cbn [inner]; rewrite comp_unc_r; discriminate).
+      cbn [inner]. apply lexc_trans.
+      intros x y z Hx Hy Hz o'. rewrite !cmpg_false_rk. apply IH.
+      + pose proof (vsize_list_in sub l x Hx). lia.
+      + apply (okv_list_in sub l); auto.
+      + apply (okv_list_in sub0 l0); auto.
+      + apply (okv_list_in sub1 l1); auto.
+    - (* map *) cbn [inner].
+      destruct (equal (VMap m) b) eqn:E1; [|cbn; discriminate].
+      destruct b; try (cbn in E1; discriminate E1). cbn [inner].
+      destruct (equal (VMap m0) c) eqn:E2; [|cbn; discriminate].
+      intros H. fin H.
+      rewrite (equal_trans (VMap m) (VMap m0) c); auto; [apply Oa|apply Ob|apply Oc].
+    - (* opaque *) cbn [inner].
+      destruct (equal (VOpaque ty id) b) eqn:E1; [|cbn; discriminate].
+      destruct b; try (cbn in E1; discriminate E1). cbn [inner].
+      destruct (equal (VOpaque ty0 id0) c) eqn:E2; [|cbn; discriminate].
+      intros H. fin H.
+      rewrite (equal_trans (VOpaque ty id) (VOpaque ty0 id0) c); auto; [apply Oa|apply Ob|apply Oc].
+  Qed.
+End Trans.
+
+Lemma exact_of_num a : nums_all is_exact a = true -> is_num a = true -> is_exact a = true.
+Proof. destruct a; try discriminate; auto. Qed.
+
+Theorem cmp_trans_exact a b c :
+  wf a -> wf b -> wf c ->
+  nums_all is_exact a = true -> nums_all is_exact b = true -> nums_all is_exact c = true ->
+  TransAt cmp a b c.
+Proof.
+  intros Wa Wb Wc A B C. apply (cmp_trans_n is_exact) with (n := S (vsize a)); try lia; try (split; assumption).
+  intros x y z o _ _ _. apply cmp_num_trans_exact.
+Qed.
+
+Theorem cmp_trans_inexact a b c :
+  wf a -> wf b -> wf c ->
+  nums_all is_float a = true -> nums_all is_float b = true -> nums_all is_float c = true ->
+  TransAt cmp a b c.
+Proof.
+  intros Wa Wb Wc A B C. apply (cmp_trans_n is_float) with (n := S (vsize a)); try lia; try (split; assumption).
+  intros x y z o _ _ _. apply cmp_num_trans_float.
+Qed.
+
+(* ------------------------------------------------------------------ *)
+(* the documented orders: Cmp answers what the specification says, for values
+   whose numbers are exact *)
+Lemma spec_cmp_exact_n n : forall a b o,
+  (vsize a < n)%nat -> nums_all is_exact a = true -> nums_all is_exact b = true ->
+  spec_cmp a b = Some o -> cmp a b = o.
+Proof.
+  induction n as [|n IH]; intros a b o Sz A B H; [lia|].
+  unfold cmp. rewrite cmp_is_inner.
+  destruct a; try discriminate H.
+  - destruct b; try discriminate H. cbn in *. now inversion H.
+  - destruct b; try discriminate H; try (cbn in B; discriminate B);
+      cbn in H; injection H as <-; cbn [inner]; rewrite cmp_num_exact by auto; reflexivity.
+  - destruct b; try discriminate H; try (cbn in B; discriminate B);
+      cbn in H; injection H as <-; cbn [inner]; rewrite cmp_num_exact by auto; reflexivity.
+  - destruct b; try discriminate H; try (cbn in B; discriminate B);
+      cbn in H; injection H as <-; cbn [inner]; rewrite cmp_num_exact by auto; reflexivity.
+  - cbn in A. discriminate A.
+  - destruct b; try discriminate H. cbn in *. now inversion H.
+  - destruct b; try discriminate H. cbn [inner]. cbn [spec_cmp] in H.
+    rewrite nums_all_list in A, B.
+    assert (Hs : forall p, In p l -> (vsize p < n)%nat).
+    { intros p Hp. pose proof (vsize_list_in sub l p Hp). lia. }
+    clear Sz. revert l0 B H. induction l as [|p l IHl]; intros [|q l0] B H; cbn in *;
+      try (now inversion H).
+    apply andb_true_iff in A as [Ap A]. apply andb_true_iff in B as [Bq B].
+    destruct (spec_cmp p q) as [r|] eqn:E; [|discriminate].
+    rewrite cmpg_false_rk, (IH p q r); auto.
+    destruct r; try (now inversion H). apply IHl; auto.
+Qed.
+
+Theorem cmp_is_spec_exact a b o :
+  nums_all is_exact a = true -> nums_all is_exact b = true ->
+  spec_cmp a b = Some o -> cmp a b = o.
+Proof. apply (spec_cmp_exact_n (S (vsize a))). lia. Qed.
+
+(* ------------------------------------------------------------------ *)
+(* refutation witnesses *)
+Definition rk0 (t : N) : Z := Z.of_N t.
+
+Lemma cmp_trans_refuted_w :
+  exists a b c, wf a /\ wf b /\ wf c /\ cmp a b = OEq /\ cmp b c = OEq /\ cmp a c = OGt.
+Proof.
+  exists (VInt (2 ^ 53 + 1)), (VFloat 4845873199050653696), (VInt (2 ^ 53)).
+  vm_compute. auto 10.
+Qed.
+
+(* 2^64 compared with 1e30 and with +Inf *)
+Lemma cmp_bigint_inf_refuted_w :
+  exists a b, spec_cmp a b = Some OLt /\ cmp a b = OGt /\
+              spec_cmp a (VFloat f_pos_inf) = Some OLt /\ cmp a (VFloat f_pos_inf) = OEq.
+Proof.
+  exists (VBig (2 ^ 64)), (VFloat 5057542381537067242). vm_compute. auto.
+Qed.
+
+Lemma cmp_rat_rounded_refuted_w :
+  exists a b, spec_cmp a b = Some OGt /\ cmp a b = OEq.
+Proof. exists (VRat (mkrat 1 3)), (VFloat 4599676419421066581). vm_compute. auto. Qed.
+
+Lemma cmp_total_agrees_refuted_w :
+  exists a b, wf a /\ wf b /\ a ~= b /\ cmp a b = OEq /\ cmp_total rk0 a b = OLt.
+Proof. exists (VList false []), (VList true []). vm_compute. auto 10. Qed.
+
+(* ------------------------------------------------------------------ *)
+(* the oracle, restated as propositions *)
+Lemma all3_spec f : all3 f = true <-> (forall i, (i < 3)%nat -> f i = true).
+Proof.
+  unfold all3, idx3. cbn. split.
+  - intros H i Hi. repeat (apply andb_true_iff in H as [? H]).
+    destruct i as [|[|[|i]]]; try assumption; lia.
+  - intros H. rewrite !H by lia. reflexivity.
+Qed.
+
+Definition Spec_proj (rk : N -> Z) (v : nat -> value)
+           (E : nat -> nat -> bool) (C T : nat -> nat -> ordering) : Prop :=
+  (forall i, (i < 3)%nat -> E i i = negb (has_nan (v i))) /\
+  (forall i j, (i < 3)%nat -> (j < 3)%nat -> E i j = E j i) /\
+  (forall i j k, (i < 3)%nat -> (j < 3)%nat -> (k < 3)%nat ->
+     E i j = true -> E j k = true -> E i k = true) /\
+  (forall i j, (i < 3)%nat -> (j < 3)%nat -> E i j = true -> C i j = OEq) /\
+  (forall i j, (i < 3)%nat -> (j < 3)%nat -> C i j = flip (C j i)) /\
+  (forall i j k, (i < 3)%nat -> (j < 3)%nat -> (k < 3)%nat -> trans_at C i j k = true) /\
+  (forall i j o, (i < 3)%nat -> (j < 3)%nat -> spec_cmp (v i) (v j) = Some o -> C i j = o) /\
+  (forall i j, (i < 3)%nat -> (j < 3)%nat -> T i j <> OUn) /\
+  (forall i j, (i < 3)%nat -> (j < 3)%nat -> T i j = flip (T j i)) /\
+  (forall i j k, (i < 3)%nat -> (j < 3)%nat -> (k < 3)%nat -> trans_at T i j k = true) /\
+  (forall i j, (i < 3)%nat -> (j < 3)%nat -> tag (v i) <> tag (v j) ->
+     T i j = of_comparison (Z.compare (rk (tag (v i))) (rk (tag (v j))))) /\
+  (forall i j, (i < 3)%nat -> (j < 3)%nat -> C i j <> OUn -> T i j = C i j).
+
+Lemma ordering_eqb_eq a b : ordering_eqb a b = true <-> a = b.
+Proof. destruct a, b; cbn; split; intros H; try discriminate; auto. Qed.
+
+Lemma check_proj_sound rk vs E C T :
+  check_proj rk vs E C T = true -> Spec_proj rk (fun i => nth i vs VNil) E C T.
+Proof.
+  unfold check_proj, Spec_proj. intros H.
+  apply andb_true_iff in H as [H H10]. apply andb_true_iff in H as [H H9].
+  apply andb_true_iff in H as [H H8]. apply andb_true_iff in H as [H H7].
+  apply andb_true_iff in H as [H H6]. apply andb_true_iff in H as [H H5].
+  apply andb_true_iff in H as [H H4]. apply andb_true_iff in H as [H H3].
+  apply andb_true_iff in H as [H H2]. apply andb_true_iff in H as [H H1].
+  apply andb_true_iff in H as [H H0].
+  rewrite all3_spec in H, H0, H1, H2, H3, H4, H5, H6, H7, H8, H9, H10.
+  repeat split.
+  - intros i Hi. now apply Bool.eqb_prop, H.
+  - intros i j Hi Hj. specialize (H0 i Hi). rewrite all3_spec in H0. now apply Bool.eqb_prop, H0.
+  - intros i j k Hi Hj Hk A B. specialize (H1 i Hi). rewrite all3_spec in H1.
+    specialize (H1 j Hj). rewrite all3_spec in H1. specialize (H1 k Hk). now rewrite A, B in H1.
+  - intros i j Hi Hj A. specialize (H2 i Hi). rewrite all3_spec in H2. specialize (H2 j Hj).
+    rewrite A in H2. now apply ordering_eqb_eq.
+  - intros i j Hi Hj. specialize (H3 i Hi). rewrite all3_spec in H3. now apply ordering_eqb_eq, H3.
+  - intros i j k Hi Hj Hk. specialize (H4 i Hi). rewrite all3_spec in H4.
+    specialize (H4 j Hj). rewrite all3_spec in H4. now apply H4.
+  - intros i j o Hi Hj A. specialize (H5 i Hi). rewrite all3_spec in H5. specialize (H5 j Hj).
+    rewrite A in H5. now apply ordering_eqb_eq.
+  - intros i j Hi Hj A. specialize (H6 i Hi). rewrite all3_spec in H6. specialize (H6 j Hj).
+    rewrite A in H6. discriminate.
+  - intros i j Hi Hj. specialize (H7 i Hi). rewrite all3_spec in H7. now apply ordering_eqb_eq, H7.
+  - intros i j k Hi Hj Hk. specialize (H8 i Hi). rewrite all3_spec in H8.
+    specialize (H8 j Hj). rewrite all3_spec in H8. now apply H8.
+  - intros i j Hi Hj A. specialize (H9 i Hi). rewrite all3_spec in H9. specialize (H9 j Hj).
+    apply N.eqb_neq in A. rewrite A in H9. now apply ordering_eqb_eq.
+  - intros i j Hi Hj A. specialize (H10 i Hi). rewrite all3_spec in H10. specialize (H10 j Hj).
+    destruct (ordering_eqb (C i j) OUn) eqn:B; [apply ordering_eqb_eq in B; contradiction|].
+    now apply ordering_eqb_eq.
+Qed.
